@@ -1061,6 +1061,7 @@ func (s *Store[K, V]) processSecondary() {
 				verifPoint(vpSecDone)
 				continue
 			}
+			verifPoint(vpSecWritten)
 			if item.reason == EVICTED {
 				item.shard.mu.Lock()
 				deleted := item.shard.delete(item.entry)
